@@ -363,4 +363,79 @@ theorem decodeLoop_encodeEntries {DK DV : Nat → Prop} {encK encV : Nat → Byt
     simp only [encodeEntries, List.length_append]
     congr 2; omega
 
+/-! ### canonicity: accepted bytes are the encoding of what they decode to -/
+
+/-- the decoder accepts only the encoder's bytes: whatever it decodes, the consumed prefix is the
+encoding of the decoded value -/
+def Canon (enc : Nat → Bytes) (dec : Dec) : Prop :=
+  ∀ b x n, dec b = some (x, n) → (enc x).length = n ∧ b = enc x ++ b.drop n
+
+theorem unle32_le32 {b rest : Bytes} {c : Nat} (h : unle32 b = some (c, rest)) : b = le32 c ++ rest ∧ c < 4294967296 := by
+  match b, h with
+  | x0 :: x1 :: x2 :: x3 :: r, h =>
+    simp only [unle32, Option.some.injEq, Prod.mk.injEq] at h
+    obtain ⟨hc, hr⟩ := h
+    subst hr
+    have h0 := x0.toNat_lt; have h1 := x1.toNat_lt; have h2 := x2.toNat_lt; have h3 := x3.toNat_lt
+    have e0 : c % 256 = x0.toNat := by omega
+    have e1 : c / 256 % 256 = x1.toNat := by omega
+    have e2 : c / 65536 % 256 = x2.toNat := by omega
+    have e3 : c / 16777216 % 256 = x3.toNat := by omega
+    refine ⟨?_, by omega⟩
+    simp only [le32, e0, e1, e2, e3, UInt8.ofNat_toNat, List.cons_append, List.nil_append]
+
+theorem decodeLoop_canonical {encK encV : Nat → Bytes} {decK decV : Dec} (hK : Canon encK decK) (hV : Canon encV decV)
+    (n : Nat) (b : Bytes) (m0 : AMap) (used : Nat) (seen : List Nat) (m' : AMap) (used' : Nat)
+    (h : decodeLoop decK decV n b m0 used seen = (m', some used')) :
+    ∃ l : List (Nat × Nat), l.length = n ∧ used' = used + (encodeEntries encK encV l).length ∧
+      b = encodeEntries encK encV l ++ b.drop (encodeEntries encK encV l).length ∧
+      m' = l.foldl (fun c p => (AMap.set c p.1 p.2).1) m0 ∧ (AMap.keys l).Nodup ∧ ∀ p ∈ l, p.1 ∉ seen := by
+  induction n generalizing b m0 used seen with
+  | zero =>
+    simp only [decodeLoop, Prod.mk.injEq, Option.some.injEq] at h
+    exact ⟨[], rfl, by simp [encodeEntries, h.2], by simp [encodeEntries], by simp [h.1], by simp [AMap.keys], by simp⟩
+  | succ n ih =>
+    simp only [decodeLoop] at h
+    cases hk : decK b with
+    | none => simp [hk] at h
+    | some kn =>
+      obtain ⟨k, nk⟩ := kn
+      simp only [hk] at h
+      simp only [List.contains_iff_mem] at h
+      by_cases hs : k ∈ seen
+      · rw [if_pos hs] at h; simp at h
+      · rw [if_neg hs] at h
+        cases hv : decV (b.drop nk) with
+        | none => simp [hv] at h
+        | some vn =>
+          obtain ⟨v, nv⟩ := vn
+          simp only [hv] at h
+          obtain ⟨l, hl, hu, hb, hm, hn, hd⟩ := ih _ _ _ _ h
+          obtain ⟨hkl, hkb⟩ := hK b k nk hk
+          obtain ⟨hvl, hvb⟩ := hV _ v nv hv
+          have hknot : k ∉ seen := hs
+          refine ⟨(k, v) :: l, by simp [hl], ?_, ?_, ?_, ?_, ?_⟩
+          · simp only [encodeEntries, List.length_append]; omega
+          · have e1 : b = encK k ++ (encV v ++ b.drop (nk + nv)) := by
+              conv => lhs; rw [hkb]
+              congr 1
+              conv => lhs; rw [hvb]
+              rw [List.drop_drop]
+            have e2 : b.drop (nk + nv) = encodeEntries encK encV l ++ (b.drop (nk + nv)).drop (encodeEntries encK encV l).length := hb
+            simp only [encodeEntries, List.length_append, List.append_assoc]
+            conv => lhs; rw [e1, e2]
+            congr 3
+            rw [List.drop_drop]
+            congr 1; omega
+          · simp only [List.foldl_cons]; exact hm
+          · simp only [AMap.keys, List.map_cons, List.nodup_cons]
+            refine ⟨?_, hn⟩
+            intro hmem
+            obtain ⟨p, hp, hpk⟩ := List.mem_map.1 hmem
+            exact hd p hp (by rw [hpk]; simp)
+          · intro p hp
+            rcases List.mem_cons.1 hp with e | e
+            · subst e; exact hknot
+            · intro hmem; exact hd p e (List.mem_cons_of_mem _ hmem)
+
 end Hive.OMap
